@@ -269,16 +269,14 @@ func (m *monitor) exhaustive(r *ev.Run, spaces []spaceDef) {
 		}
 	}
 	// Largest units first, for balance.
-	sort.SliceStable(jobs, func(a, b int) bool {
-		sa, sb := jobs[a].sd.size()*factorial(jobs[a].sd.N), jobs[b].sd.size()*factorial(jobs[b].sd.N)
-		if jobs[a].sd.Additive {
-			sa *= int64(1 + 2*jobs[a].sd.N)
+	weight := func(sd spaceDef) int64 {
+		units := int64(1) << uint(sd.N)
+		if !sd.Additive {
+			units *= int64(1 + 2*sd.N)
 		}
-		if jobs[b].sd.Additive {
-			sb *= int64(1 + 2*jobs[b].sd.N)
-		}
-		return sa > sb
-	})
+		return sd.size() / units * (factorial(sd.N-1) + 2)
+	}
+	sort.SliceStable(jobs, func(a, b int) bool { return weight(jobs[a].sd) > weight(jobs[b].sd) })
 	var total exhStats
 	var mu sync.Mutex
 	ch := make(chan job)
